@@ -143,6 +143,19 @@ void dump_common(Smry& smry, const cJSON* req, JW& out)
     out.end_arr();
     out.kv_i("startdate", to_secs(smry.startdate()));
 
+    // "pre": [["get", key] | ["dates"] | ["rstep", key] | ["load_list", [keys...]] | ["load_all"], ...]
+    // accesses made on the same object before the load / dump below (results discarded here; the dump repeats them)
+    if (jhas(req, "pre")) {
+        jforeach(jget(req, "pre"), [&](const cJSON* e) {
+            const std::string what = jstr(cJSON_GetArrayItem(e, 0));
+            if (what == "get") (void) smry.get(jstr(cJSON_GetArrayItem(e, 1)));
+            else if (what == "dates") (void) smry.dates();
+            else if (what == "rstep") (void) smry.get_at_rstep(jstr(cJSON_GetArrayItem(e, 1)));
+            else if (what == "load_list") smry.loadData(jstrs(cJSON_GetArrayItem(e, 1)));
+            else if (what == "load_all") smry.loadData();
+        });
+    }
+
     const std::string load = jstr(req, "load", "none");
     if (load == "all") smry.loadData();
     else if (load == "list") smry.loadData(jstrs(jget(req, "list")));
